@@ -529,3 +529,26 @@ class OptimalityLemmas(Contract):
                 "PyVC.nnls_kkt_optimal": "lemma_kkt_point_minimises_over_nonnegative_clp_for_all_m_n",
             },
         )
+
+
+# ----------------------------------------------------------------------------- which matrix meets which data column
+from contracts.c02_objective import Objective as _Objective  # noqa: E402
+
+
+class PairingAtIndex(_Objective):
+    """What the providers hand to `calculate_residual`: at every (aligned) global index the matrix of *that* index - the
+    own slice of an index-dependent matrix, also for datasets linked forward / backward or within a large tolerance -
+    together with the data column of that index, solved by the residual function of the dataset's own group.  Harness
+    and reference of C02 `Objective`, on the configurations where the pairing is not trivial."""
+
+    prop = "C01"
+    name = "PairingAtIndex"
+    CONFIGS = ("one_dep_weight_gm", "two_tol_forward", "two_tol_backward", "two_tol_forward_dep", "two_tol_dense_second", "linked_dep_before_indep", "two_groups", "groups_interleaved_linked", "nnls")
+
+    def cases(self, tier):
+        for case in super().cases(tier):
+            if case["cfg"] in self.CONFIGS:
+                yield case
+
+    def bounded_checks(self, tier, seed):
+        return []
